@@ -137,13 +137,25 @@ func genTitle(r *RNG) *titleDoc {
 			td.H2 = td.T0
 		}
 	}
+	pad := func(s string) string {
+		// templates leave blanks and line breaks around values
+		switch r.Intn(6) {
+		case 0:
+			return " " + s + " "
+		case 1:
+			return s + "\n"
+		case 2:
+			return "\n    " + s + "\n  "
+		}
+		return s
+	}
 	switch r.Intn(5) {
 	case 0:
-		td.MarkupSrc, td.Markup = "og", mk("MO", 1+r.Intn(6))
+		td.MarkupSrc, td.Markup = "og", pad(mk("MO", 1+r.Intn(6)))
 	case 1:
 		td.MarkupSrc, td.Markup = "so", mk("MS", 1+r.Intn(6))
 	case 2:
-		td.MarkupSrc, td.Markup = "ie", mk("MI", 1+r.Intn(6))
+		td.MarkupSrc, td.Markup = "ie", pad(mk("MI", 1+r.Intn(6)))
 	}
 	td.Spec = fmt.Sprintf("parts=%d sep=%v h1=%v h2=%v markup=%s len=%d", nparts, td.HasSep, td.H1 != "", td.H2 != "", td.MarkupSrc, utf8.RuneCountInString(td.T0))
 	return td
